@@ -609,7 +609,7 @@ def plan(prop, tier):
             if kind in ('dict', 'null'):
                 continue
             if not q:
-                for op in OPS:
+                for op in ('set', 'del', 'pop', 'popitem', 'setdefault', 'update', 'clear', 'set_bad', 'popkeys', 'copy'):
                     add(kind, prefix=1, nops=2, first=[op], weight=20)
             elif kind in ('file', 'dir', 'sqlfile'):
                 for op in ('set', 'del', 'pop', 'popitem', 'setdefault', 'update', 'clear', 'set_bad'):
